@@ -111,11 +111,12 @@ extern "C" void harness_dispatch_rules() {
 }
 
 // C12.e / C06.c: groups are independent: the delta a group sees is the delta of the call, whatever groups came before
-struct CRec { int n_add, n_exec; int fr, ct; bool rev, pres; size_t n_paths; };
+struct CRec { int n_add, n_exec; int fr, ct; bool rev, pres; size_t n_paths; bool poly; int n_bp, n_bt; const void* bp_target; const void* bt_target; };
 static CRec C;
 extern "C" __attribute__((noinline)) void stub_addpaths(ClipperBase* self, const Paths64& paths, PathType pt, bool is_open) { C.n_add++; C.n_paths = paths.size(); }
-extern "C" __attribute__((noinline)) bool stub_execint(ClipperBase* self, ClipType ct, FillRule fr, bool use_polytrees) { C.ct = (int)ct; C.fr = (int)fr; C.rev = self->reverse_solution_; C.pres = self->preserve_collinear_; C.n_exec++; return true; }
-extern "C" __attribute__((noinline)) void stub_buildpaths64(Clipper64* self, Paths64& closed, Paths64* open) {}
+extern "C" __attribute__((noinline)) bool stub_execint(ClipperBase* self, ClipType ct, FillRule fr, bool use_polytrees) { C.ct = (int)ct; C.fr = (int)fr; C.poly = use_polytrees; C.rev = self->reverse_solution_; C.pres = self->preserve_collinear_; C.n_exec++; return true; }
+extern "C" __attribute__((noinline)) void stub_buildpaths64(Clipper64* self, Paths64& closed, Paths64* open) { C.n_bp++; C.bp_target = &closed; }
+extern "C" __attribute__((noinline)) void stub_buildtree64(Clipper64* self, PolyPath64& tree, Paths64& open) { C.n_bt++; C.bt_target = &tree; }
 extern "C" __attribute__((noinline)) void stub_cleanup(ClipperBase* self) {}
 
 // CalcSolutionCapacity only sizes a reserve(); a constant keeps the heap shape concrete (capacity is not observable)
@@ -144,6 +145,24 @@ extern "C" void harness_groups_independent() {
   verif_reach();
 }
 
+// C12: the Paths64 and PolyTree64 overloads of ClipperOffset::Execute can be mixed on one object: each call delivers its
+// clean-up union into the container of THAT call (nothing is kept from the previous call's destination)
+extern "C" void harness_execute_overloads() {
+  ClipperOffset& co = *new ClipperOffset();
+  Paths64 g1; g1.push_back(mk(3, 1000));
+  co.AddPaths(g1, (JoinType)nd_int(0, 3), EndType::Polygon);
+  PolyTree64& tree = *new PolyTree64(); PolyTree64& tree2 = *new PolyTree64();
+  Paths64 sol; sol.reserve(8);
+  g_push = true;
+  co.Execute(nd_delta(), tree);
+  VA(C.n_exec == 1 && C.poly && C.n_bt == 1 && C.bt_target == (const void*)&tree && C.n_bp == 0);
+  co.Execute(nd_delta(), sol);
+  VA(C.n_exec == 2 && !C.poly && C.n_bp == 1 && C.bp_target == (const void*)&sol && C.n_bt == 1);
+  co.Execute(nd_delta(), tree2);
+  VA(C.n_exec == 3 && C.poly && C.n_bt == 2 && C.bt_target == (const void*)&tree2 && C.n_bp == 1);
+  verif_reach();
+}
+
 // C06.d: |delta| < 0.5 hands the input paths to the union unchanged
 extern "C" void harness_tiny_delta() {
   double delta = nondet_double(); ASSUME(delta > -0.5 && delta < 0.5);
@@ -169,5 +188,64 @@ extern "C" void harness_group_ctor() {
   bool closed = et == EndType::Polygon || et == EndType::Joined;
   VA(g.paths_in[0].size() == (closed ? (size_t)3 : (size_t)4));
   VA(g.lowest_path_idx.has_value() == (et == EndType::Polygon));
+  verif_reach();
+}
+
+// ---- C06.a: OffsetPoint chooses the join by the turn direction relative to the offset side -----------------------------------
+// Unit normals are drawn from eight exactly representable directions (axis-parallel and 3-4-5), delta is symbolic; the join
+// workers are recorders. Decision table (from the property: concave joins are the vertex itself between the two edge offsets,
+// convex joins use the requested join type, miter falls back to square beyond the miter limit):
+struct JRec { int n; int kind; size_t j, k; double cos_a, angle; };
+static JRec J;
+extern "C" __attribute__((noinline)) void stub_domiter(ClipperOffset* s, const Path64& p, size_t j, size_t k, double cos_a) { J.n++; J.kind = 1; J.j = j; J.k = k; J.cos_a = cos_a; }
+extern "C" __attribute__((noinline)) void stub_dosquare(ClipperOffset* s, const Path64& p, size_t j, size_t k) { J.n++; J.kind = 2; J.j = j; J.k = k; }
+extern "C" __attribute__((noinline)) void stub_doround(ClipperOffset* s, const Path64& p, size_t j, size_t k, double angle) { J.n++; J.kind = 3; J.j = j; J.k = k; J.angle = angle; }
+extern "C" __attribute__((noinline)) void stub_dobevel(ClipperOffset* s, const Path64& p, size_t j, size_t k) { J.n++; J.kind = 4; J.j = j; J.k = k; }
+extern "C" __attribute__((noinline)) double stub_atan2(double y, double x) { return nd_in(-3.1415926535897936, 3.1415926535897936); }
+extern "C" __attribute__((noinline)) Point64* stub_pathout_append(Path64* v, Point64&& p) {
+  VA(v->_M_impl._M_finish != v->_M_impl._M_end_of_storage); ASSUME(v->_M_impl._M_finish != v->_M_impl._M_end_of_storage);
+  Point64* f = v->_M_impl._M_finish; *f = p; v->_M_impl._M_finish = f + 1; return f;
+}
+extern "C" __attribute__((noinline)) Point64* stub_pathout_append_c(Path64* v, const Point64& p) {
+  VA(v->_M_impl._M_finish != v->_M_impl._M_end_of_storage); ASSUME(v->_M_impl._M_finish != v->_M_impl._M_end_of_storage);
+  Point64* f = v->_M_impl._M_finish; *f = p; v->_M_impl._M_finish = f + 1; return f;
+}
+static PointD nd_normal() {
+  static const double NX[8] = {1.0, 0.0, -1.0, 0.0, 0.6, -0.6, 0.8, -0.8}, NY[8] = {0.0, 1.0, 0.0, -1.0, 0.8, 0.8, -0.6, -0.6};
+  int i = nd_int(0, 7); return PointD(NX[i], NY[i]);
+}
+extern "C" void harness_offsetpoint() {
+  ClipperOffset& co = *new ClipperOffset(2.0, 0.0);
+  Paths64 sol; co.solution = &sol;
+  Path64 path; path.reserve(4); path.push_back(Point64((int64_t)0, (int64_t)0)); path.push_back(Point64((int64_t)100, (int64_t)0)); path.push_back(Point64((int64_t)100, (int64_t)100));
+  co.norms.push_back(nd_normal()); co.norms.push_back(nd_normal()); co.norms.push_back(nd_normal());
+  co.path_out.reserve(8);
+  double delta = nondet_double(); ASSUME((delta >= 0.5 && delta <= 1e6) || (delta <= -0.5 && delta >= -1e6));
+  co.group_delta_ = delta; co.join_type_ = (JoinType)nd_int(0, 3);
+  double ml = nd_in(0.0, 10.0); co.temp_lim_ = (ml <= 1) ? 2.0 : 2.0 / (ml * ml);
+  ClipperOffset::Group& g = *new ClipperOffset::Group(Paths64(1, path), co.join_type_, EndType::Polygon);
+  const size_t j = 1, k = 0;
+  J.n = 0; J.kind = 0;
+  co.OffsetPoint(g, path, j, k);
+  const PointD& nj = co.norms[j]; const PointD& nk = co.norms[k];
+  double sin_a = nj.y * nk.x - nk.y * nj.x, cos_a = nj.x * nk.x + nj.y * nk.y;    // turn from edge k to edge j
+  bool concave = cos_a > -0.999 && sin_a * delta < 0;                            // turning towards the offset side
+  if (concave) {
+    VA(J.n == 0 && co.path_out.size() == 3);
+    if (co.path_out.size() == 3) {
+      VA(co.path_out[1] == path[j]);                                              // the vertex itself, between ...
+      VA(co.path_out[0] == Point64(path[j].x + nk.x * delta, path[j].y + nk.y * delta));   // ... the offset along the previous edge's normal
+      VA(co.path_out[2] == Point64(path[j].x + nj.x * delta, path[j].y + nj.y * delta));   // ... and along this edge's normal
+    }
+  } else {
+    VA(J.n == 1 && co.path_out.empty() && J.j == j && J.k == k);
+    JoinType jt = co.join_type_;
+    if (cos_a > 0.999 && jt != JoinType::Round) VA(J.kind == 1);                 // almost straight: a single mitered point
+    else if (jt == JoinType::Miter) VA(J.kind == (cos_a > co.temp_lim_ - 1 ? 1 : 2));   // miter unless the limit is exceeded, then square
+    else if (jt == JoinType::Round) VA(J.kind == 3);
+    else if (jt == JoinType::Bevel) VA(J.kind == 4);
+    else VA(J.kind == 2);
+    if (J.kind == 1) VA(same_double(J.cos_a, cos_a));
+  }
   verif_reach();
 }
